@@ -111,7 +111,7 @@ class Csrs(RiscvInstruction):
 
 def make_csrwi(mnemonic, func):
     rd = Operand("rd", RiscvCsrRegister, write=True)
-    imm = Operand("imm", int)
+    imm = Operand("imm", int, signed=False)
     syntax = Syntax([mnemonic, " ", rd, ",", " ", imm])
     tokens = [RiscvIToken]
     patterns = {"opcode": 0x73, "rd": 0, "funct3": func, "rs1": imm, "imm": rd}
@@ -195,7 +195,7 @@ Andr = make_regregreg("and", 0b0000000, 0b111)
 def make_si(mnemonic, code, func):
     rd = Operand("rd", RiscvRegister, write=True)
     rs1 = Operand("rs1", RiscvRegister, read=True)
-    imm = Operand("imm", int)
+    imm = Operand("imm", int, signed=False)
     syntax = Syntax([mnemonic, " ", rd, ",", " ", rs1, ",", " ", imm])
     tokens = [RiscvToken]
     patterns = {
@@ -472,6 +472,8 @@ class Auipc(RiscvInstruction):
 
     def encode(self):
         tokens = self.get_tokens()
+        if self.imm not in range(0, 1 << 20):
+            raise ValueError(f"Cannot encode {self.imm} in auipc [0,1048575]")
         tokens[0][0:7] = 0b0010111
         tokens[0][7:12] = self.rd.num
         tokens[0][12:32] = self.imm
